@@ -762,6 +762,9 @@ def check_C01(ctx):
     for kind in ("fuzztext", "mutants"):
         gen = some_without_bindings(ctx.gen(kind, n), 6)
         ctx.validate(ctx.run_cases(gen, deadline=30), module="TraceC01", nontrivial_key=lambda o: o.get("text", ""))
+    # every filter on something big (and two-filter chains): back within the deadline
+    scal = ctx.gen("scaling", 600 if ctx.quick else 3000)
+    ctx.validate(ctx.run_cases(scal, deadline=30, workers=4), module="TraceC01", nontrivial_key=lambda o: o.get("text", ""))
     pairs = ctx.gen("weirdpairs", 45 * 45 * 22)
     ctx.validate(ctx.run_cases(pairs, deadline=30), module="TraceC01", nontrivial_key=lambda o: o.get("text", ""))
     progs = ctx.gen("prog", 2000 if ctx.quick else 30000)
